@@ -2,7 +2,7 @@
 from props import qs_common as q
 LEVEL = "exploration"
 RULE = ("Histories as for C03 with concurrencylocal/remote in {0,1,2,3,255,1000}, announced spawner limits in {0,1,2,120,255}, up to 12 "
-        "recipients per message incl. duplicate addresses, TERM+restart, and crash points (image kept) taken from the scenario's own trace. "
+        "recipients per message incl. duplicate addresses (plus four fixed histories with 138..392 recipients against limits 120..255 and configured 5..400), TERM+restart, and crash points (image kept) taken from the scenario's own trace. "
         "Oracle over commands/reports/record marks: outstanding attempts per (message, channel, address) never exceed the unmarked records, "
         "outstanding per channel <= min(configured, announced), delivery numbers distinct and in range, no command after TERM, exit 0 only with "
         "nothing outstanding, crash-free histories give every recipient exactly one final (K/D) attempt. Non-trivial = >= 2 attempts outstanding "
@@ -30,8 +30,26 @@ FULLY_SWEPT = [
 ]
 
 
+def wide(limits, conc, nloc, nrem, tape=()):
+    """more simultaneously deliverable recipients than the announced limit allows (added after seeded change C04-D: limit bytes 128..255 and
+    configured values above them; the random scenarios have at most 12 recipients and can never fill such a channel)"""
+    rc = ["l%03d@loc.example" % i for i in range(nloc)] + ["r%03d@rem.example" % i for i in range(nrem)]
+    return fx([{"sender": "s@rem.example", "rcpts": rc, "body": "x\n"}], {}, list(tape), ["answer", "inject", "advance"],
+              ctl={"concurrencylocal": "%d\n" % conc[0], "concurrencyremote": "%d\n" % conc[1]}, limits=limits)
+
+
+# run once each, no crash/fault sweep (hundreds of record marks each)
+WIDE = [
+    wide((120, 130), (10, 140), 2, 136),            # announced 130 < configured 140 < recipients
+    wide((128, 120), (200, 5), 133, 7),             # smallest limit byte with the top bit set, local channel
+    wide((255, 255), (400, 300), 130, 262),         # largest announceable limit, configured values beyond one byte
+    wide((200, 127), (150, 250), 160, 131),         # configured below the announced limit on one channel, above on the other
+]
+
+
 def run(ctx):
     q.search(ctx, "C04", TAGS, 0, 0, sweep={"all": True, "kept_only": True}, fixed=FULLY_SWEPT)
+    q.search(ctx, "C04", TAGS, 0, 0, fixed=WIDE)
     q.search(ctx, "C04", TAGS, 50, 700, sweep={"crash_kept": 4, "fault": 3})
 
 
